@@ -41,7 +41,7 @@ def one(ctx: Ctx, rng, mode: str, pending: list, spec) -> None:
     ctx.count("ctor:" + ("text" if inp["text"] else "list"))
     ctx.count("init:" + ("valid" if valid else segs[0]))
     for (op, b, a, e) in steps:
-        if op[0] != "init":
+        if op[0] not in ("init", "input-mutated"):
             ctx.count("op:" + op[0] + (":err" if e else ""))
     if inp["fixed"] or any(c.get("fixed") for c in inp["cells"]):
         ctx.count("has-fixed-cell")
